@@ -31,7 +31,7 @@ pub fn plan(prop: &str, tier: &str) -> Vec<RunSpec> {
     let mut p = vec![];
     match prop {
         "C01" => cross(all, &[(Generic, 3), (TaskSwap, 3), (Budget, 2), (Groups, 2), (Starve, 1), (WakerLife, 1), (StaleBacklog, 1)], &mut p),
-        "C02" => cross(collections, &[(Generic, 3), (Budget, 1), (Groups, 3), (Cap, 1), (Wrap, 1), (Oscillate, 1)], &mut p),
+        "C02" => cross(collections, &[(Generic, 3), (Budget, 1), (Groups, 3), (Cap, 1), (Wrap, 1), (Oscillate, 1), (Conveyor, 1)], &mut p),
         "C03" => cross(&[FUB, FU, FOB, FO, MB, MU, BU, TBO, FEC, JA, TJA], &[(WakerLife, 4), (Generic, 2), (Groups, 2), (Cap, 1), (StaleBacklog, 1)], &mut p),
         "C04" => cross(&[FOB, FO, BO, TBO, JA, TJA], &[(Wrap, 4), (Generic, 2), (Stall, 1), (Budget, 1), (Groups, 1)], &mut p),
         "C05" => cross(all, &[(Generic, 3), (StaleBacklog, 2), (Budget, 1), (Groups, 1)], &mut p),
@@ -50,14 +50,14 @@ pub fn plan(prop: &str, tier: &str) -> Vec<RunSpec> {
         "C10" => cross(adapters, &[(Generic, 4), (Cap, 2), (Stall, 1), (Budget, 1), (Oscillate, 1)], &mut p),
         "C11" => cross(merges, &[(Generic, 4), (Groups, 2), (Budget, 1), (Starve, 1), (Oscillate, 1)], &mut p),
         "C12" => cross(all, &[(Generic, 3), (StaleBacklog, 2), (Budget, 1), (Groups, 2)], &mut p),
-        "C13" => cross(&[FUB, FU, FOB, FO, MB, MU, BU, BO, TBU, TBO, FEC], &[(Starve, 4), (Budget, 2), (Groups, 2), (Generic, 1)], &mut p),
+        "C13" => cross(&[FUB, FU, FOB, FO, MB, MU, BU, BO, TBU, TBO, FEC], &[(Starve, 4), (Budget, 2), (Groups, 2), (Generic, 1), (Conveyor, 1)], &mut p),
         "C14" => cross(all, &[(StaleBacklog, 3), (Generic, 3), (Groups, 2), (Budget, 1), (TaskSwap, 1)], &mut p),
         "C15" => cross(&[FUB, FU, FOB, FO, MB, MU, BU, BO, TBU, TBO, FEC], &[(Cap, 4), (Generic, 2), (Wrap, 1), (Groups, 1)], &mut p),
         "C16" => cross(&[BO, TBO], &[(Stall, 4), (Generic, 3), (Budget, 1), (Wrap, 1)], &mut p),
         "C17" => cross(&[FUB, FU, FOB, FO, MB, MU, BU, BO, TBU, TBO], &[(Generic, 4), (Cap, 1), (Stall, 1), (Groups, 1)], &mut p),
-        "C18" => cross(&[FUB, FU, FO, MB, MU, BU, TBU, FEC, JA, TJA], &[(Oscillate, 3), (Generic, 2), (WakerLife, 1), (Groups, 2)], &mut p),
+        "C18" => cross(&[FUB, FU, FO, MB, MU, BU, TBU, FEC, JA, TJA], &[(Oscillate, 3), (Conveyor, 3), (Generic, 2), (WakerLife, 1), (Groups, 2)], &mut p),
         // everything: used for determinism proofs and smoke runs
-        _ => cross(all, &[(Generic, 1), (Budget, 1), (Groups, 1), (Starve, 1), (Oscillate, 1), (Wrap, 1), (Cap, 1), (StaleBacklog, 1), (Stall, 1), (AfterReady, 1), (WakerLife, 1), (TaskSwap, 1)], &mut p),
+        _ => cross(all, &[(Generic, 1), (Budget, 1), (Groups, 1), (Starve, 1), (Oscillate, 1), (Wrap, 1), (Cap, 1), (StaleBacklog, 1), (Stall, 1), (AfterReady, 1), (WakerLife, 1), (TaskSwap, 1), (Conveyor, 1)], &mut p),
     }
     p
 }
